@@ -58,7 +58,7 @@ def bounds(tier):
 
 def shards(tier):
     maxb = 3 if tier == "quick" else 4
-    out = [("short", 0), ("leak", 0)]
+    out = [("short", 0), ("leak", 0), ("special", 0)]
     for a in NAMES:
         for b in NAMES:
             out.append(("pre", a, b))
@@ -158,6 +158,50 @@ def check(names, lib, order, on_top, acc):
     return True
 
 
+def run_special(acc):
+    """(a) libraries holding structurally EQUAL blocks (the same preamble / comment / entry text twice, as when two files
+    with the same header are merged): result must be a permutation and sorted; (b) keys outside ASCII: compared as the
+    strings they are (code points), not case-folded or normalised."""
+    twin = lambda: Preamble("p", start_line=5, raw="@preamble{p}")
+    ctwin = lambda: ImplicitComment("% same", start_line=1, raw="% same")
+    e = lambda k, i: Entry("article", k, [], start_line=i, raw=f"@article{{{k}}}#{i}")
+    libs = [
+        lambda: [twin(), e("a", 0), twin()],
+        lambda: [ctwin(), twin(), ctwin(), twin(), e("b", 0), ctwin()],
+        lambda: [e("b", 1), twin(), ctwin(), e("a", 2), twin(), twin()],
+        lambda: [e("f", 0), e("e\u0301", 1), e("\xe9", 2), e("e", 3), e("E", 4), e("\u017f", 5), e("s", 6), e("\xdf", 7), e("ss", 8)],
+        lambda: [e("\u0130", 0), e("i", 1), e("I", 2), e("\u0131", 3), e("i\u0307", 4)],
+    ]
+    for n, mk in enumerate(libs):
+        for order in (ORDERS[0], ORDERS[3], ORDERS[30], ORDERS[-1]):
+            for on_top in (True, False):
+                types = tuple(TYPES[i] for i in order)
+                lib = Library(mk())
+                inp = list(lib.blocks)
+                case = {"special_library": n, "order": [TNAMES[i] for i in order], "comments_on_top": on_top}
+                acc.trace()
+                acc.case(nontrivial_key=("special", n, order, on_top))
+                try:
+                    res = SortBlocksByTypeAndKeyMiddleware(block_type_order=types, preserve_comments_on_top=on_top).transform(lib).blocks
+                except Exception as ex:
+                    acc.exception(ex, case, "SortBlocksByTypeAndKeyMiddleware.transform")
+                    continue
+                acc.step(("special", n), ("sort", order, on_top), tuple(type(b).__name__ for b in res))
+                if sorted((canon(b) for b in inp), key=repr) != sorted((canon(b) for b in res), key=repr):
+                    acc.violation({"oracle": "permutation_of_input_blocks", "comments_on_top": on_top}, {"case": case, "observed": [type(b).__name__ for b in res], "expected": [type(b).__name__ for b in inp]})
+                    continue
+                rank = lambda b: types.index(type(b)) if type(b) in types else len(types)
+                key = lambda b: getattr(b, "key", "") if isinstance(getattr(b, "key", ""), str) else ""
+                seq = res if not on_top else [b for b in res if not is_comment(b)]
+                for x, y in zip(seq, seq[1:]):
+                    if (rank(x), key(x)) > (rank(y), key(y)):
+                        acc.violation(
+                            {"oracle": "ordered_by_type_rank_then_key", "comments_on_top": on_top, "what": "key (non-ASCII / equal blocks)"},
+                            {"case": case, "observed": [(type(b).__name__, key(b)) for b in seq], "expected": "non-decreasing (rank, key) by plain string comparison"},
+                        )
+                        break
+
+
 def run_libs(libs, acc):
     for names in libs:
         lib = build(names)
@@ -173,6 +217,8 @@ def run_shard(shard, tier, acc):
     if shard[0] == "short":
         run_libs([()] + [(a,) for a in NAMES], acc)
         return
+    if shard[0] == "special":
+        return run_special(acc)
     if shard[0] == "leak":
         libs = [(a, b, c) for a in NAMES[:6] for b in NAMES[3:] for c in NAMES[::3]]
         inputs = [(lambda n=n: build(n)) for n in libs]
@@ -189,6 +235,8 @@ def run_shard(shard, tier, acc):
 
 
 def replay(case, acc):
+    if "special_library" in case:
+        return run_special(acc)
     names = tuple(case["library"])
     order = tuple(TNAMES.index(t) for t in case["order"])
     check(names, build(names), order, case["comments_on_top"], acc)
